@@ -36,6 +36,8 @@ import os
 from .model import own_nodes, unparse
 
 LOGGING = ('logger', 'logging', 'log')
+EFFECT_METHODS = ('append', 'extend', 'insert', 'add', 'update', 'emit', 'emit_raw', 'write',
+                  'setdefault', 'pop', 'remove')
 
 
 def _simple_statements(fnode):
@@ -178,6 +180,59 @@ def compare(ref, cur, vocab, local_names, local_names_ref=frozenset()):
         if swapped:
             out.append(('arguments swapped', swapped[0][:200]))
             return out
+    # H: an attribute access added to / dropped from an operand (x.name <-> x)
+    if same['names'] and same['compound'] and same['consts'] and \
+            len(ref['stmts']) == len(cur['stmts']) and \
+            abs(len(ref['attrs']) - len(cur['attrs'])) == 1:
+        longer, shorter = (ref['attrs'], cur['attrs']) if len(ref['attrs']) > len(cur['attrs']) \
+            else (cur['attrs'], ref['attrs'])
+        for i in range(len(longer)):
+            if longer[:i] + longer[i + 1:] == shorter:
+                if len(_diff_positions(ref['stmts'], cur['stmts'])) == 1 and longer[i] in vocab:
+                    out.append(('attribute access %s' % (
+                        'dropped' if longer is ref['attrs'] else 'added'), '.' + longer[i]))
+                    return out
+                break
+    # I: an argument dropped from / added to one call
+    if not same['calls'] and len(ref['calls']) == len(cur['calls']) and same['compound'] and \
+            len(ref['stmts']) == len(cur['stmts']):
+        diffs = [(r_, c_) for r_, c_ in zip(ref['calls'], cur['calls']) if r_ != c_]
+        inner = [d for d in diffs if d[0][0] == d[1][0] and abs(len(d[0][1]) - len(d[1][1])) == 1]
+        if inner and all(d[0][0] == d[1][0] for d in diffs):
+            (rf, ra), (cf, ca) = inner[-1]
+            longer, shorter = (ra, ca) if len(ra) > len(ca) else (ca, ra)
+            if any(longer[:i] + longer[i + 1:] == shorter for i in range(len(longer))):
+                gone = [x for x in longer if x not in shorter] or longer[-1:]
+                if gone[0] in ('None',) or gone[0].endswith('=None'):
+                    return out      # an explicit None that equals the usual default
+                # the other differing calls are enclosing calls whose text contains this one
+                if all(d is inner[-1] or len(d[0][1]) == len(d[1][1]) for d in diffs):
+                    out.append(('argument %s' % ('dropped' if longer is ra else 'added'),
+                                '%s(...%s...)' % (rf, gone[0][:60])))
+                    return out
+    # J: the order of effects on one receiver changed
+    if sorted(ref['stmts']) == sorted(cur['stmts']) and \
+            sorted(ref['compound']) == sorted(cur['compound']) and ref['stmts'] != cur['stmts']:
+        def effects(stmts):
+            seq = {}
+            for t in stmts:
+                try:
+                    st = ast.parse(t).body[0]
+                except (SyntaxError, IndexError):
+                    continue
+                if isinstance(st, ast.Expr) and isinstance(st.value, ast.Call) and \
+                        isinstance(st.value.func, ast.Attribute) and \
+                        st.value.func.attr in EFFECT_METHODS:
+                    recv = unparse(st.value.func.value)
+                    key = recv if st.value.func.attr not in ('emit', 'emit_raw') else recv + '.emit'
+                    seq.setdefault(key, []).append(t)
+            return seq
+        re_, ce = effects(ref['stmts']), effects(cur['stmts'])
+        for k in re_:
+            if k in ce and sorted(re_[k]) == sorted(ce[k]) and re_[k] != ce[k]:
+                out.append(('order of effects changed', 'on %s: %s' % (
+                    k, ' / '.join(x[:50] for x in ce[k][:3]))))
+                return out
     # F: operands swapped inside one statement
     if len(ref['stmts']) == len(cur['stmts']) and same['compound'] and same['consts'] and \
             sorted(ref['attrs']) == sorted(cur['attrs']) and \
@@ -265,6 +320,9 @@ def _is_effect(text):
         v = st.value
         if isinstance(st, ast.AugAssign):
             return True
+        tnames = {t.id for t in st.targets if isinstance(t, ast.Name)}
+        if tnames & {x.id for x in ast.walk(v) if isinstance(x, ast.Name)}:
+            return True      # x = f(x): an accumulator update
         if isinstance(v, (ast.List, ast.Dict, ast.Set)) and not (getattr(v, 'elts', None) or
                                                                   getattr(v, 'keys', None)):
             return True
